@@ -207,6 +207,13 @@ def generate(seed, tier):
                              ("periodic", 300, 3, 0, COSTS[0]), ("hrevolve", 270, 3, 2, COSTS[0])] + \
                             ([("revolve", 420, 7, 0, COSTS[0]), ("hrevolve", 330, 2, 4, (1, 1, 1, 3)), ("disk", 380, 2, 0, (3, 1, 1, 1))] if thorough else []):
         g.rev(kind, N, r, d, c)
+    # unit counts beyond 256 as well
+    g.multistage(300, 280, 10, "max")
+    g.multistage(300, 0, 290, "rev")
+    g.twolevel(600, 300, 270, "RAM", "max", 2)
+    if thorough:
+        g.rev("revolve", 300, 290, 0, COSTS[0])
+        g.rev("hrevolve", 270, 260, 2, COSTS[0])
     # ---------------- constructor box around the domain boundary (C17)
     for N in range(0, 7):
         for u in range(0, N + 3):
